@@ -42,11 +42,11 @@ type FaultSpec struct {
 }
 
 type Recorder struct {
-	mu    sync.Mutex
-	Root  string
-	Evs   []Ev
-	Fault *FaultSpec
-	Yield func(ev *nutsdb.VerifEvent)
+	mu      sync.Mutex
+	Root    string
+	Evs     []Ev
+	Fault   *FaultSpec
+	Yield   func(ev *nutsdb.VerifEvent)
 	Discard bool // only yield, record nothing (concurrent runs)
 }
 
